@@ -464,6 +464,8 @@ def show(e, depth=0):
             return repr(c["s"])
         if "fn" in c:
             return "fn:" + strip_generics(c["fn"])
+        if "static" in c:
+            return "static:" + c["static"]
         return "const(%s)" % c.get("t")
     if k == "arg":
         return "arg%d" % e[1]
